@@ -221,6 +221,9 @@ class C01(Prop):
     def gen(self, rng, tier, seed):
         cfg = gen.gen_base_cfg(rng, seed, max_age_p=0.15,
                                stop_children_p=0.1,
+                               # workers with children and grandchildren of
+                               # their own in a sixth of the cases
+                               kids=rng.random() < 0.17,
                                stop_signals=(15, 15, 15, 15, 2, 1, 3),
                                kinds=('obedient', 'slow', 'stubborn',
                                       'selfexit'))
